@@ -133,6 +133,7 @@ func fieldWritesIn(fn *ssa.Function) map[string]bool {
 func C15(c *Ctx) {
 	c.Note("equality of reloaded and in-memory state; crash atomicity of WriteFile+Rename without fsync; semantics of each edit's apply (only coverage, order and locking are decided)")
 	manifestAppendRollbackGroup(c, "K2.failed-manifest-append-rolled-back")
+	compactionOutcomeGroup(c, "K2.compaction-outcome-reported-truthfully")
 	snapshotLosslessGroup(c, "K6.snapshot-carries-every-field")
 	manifestOpenersVerifyGroup(c, "K11.manifest-openers-verify-first")
 	const r1 = "K5.edit-type-exhaustive"
